@@ -38,36 +38,93 @@ type HStep struct {
 
 // HCase is a complete history (the case value / replay file content).
 type HCase struct {
+	// Sharp: the steps may use table values that trigger a listed finding of
+	// yson.Unmarshal (and the drawn literals were generated with that licence).
+	Sharp bool    `json:"sharp,omitempty"`
 	Steps []HStep `json:"steps"`
 }
 
 // ---------------------------------------------------------------------------
 // Value tables of the extended alphabet.
 
-var hStrs = []string{"plain", `q"uote`, `back\slash`, "new\nline", "par)en", "Int(7", "Text(", "\ud55c\uae00", "\U0001F600", "a\x00b", "ver\vtab",
-	`{"type":"x"}`, `Date("`, "", "tab\there", "\u2028sep", `\u0041`, "Long(1)"}
+// Every table has a "safe" prefix of values that trigger no listed finding of
+// yson.Unmarshal and a "sharp" rest. A history draws once whether it may use
+// the sharp values (HCase.Sharp): otherwise one ")" would switch the textual
+// oracle off for all later states of the history.
 
-var hKeys = []string{"k", "type", `q"k`, `b\k`, "n\nk", "p)k", "Long(", "한", "😀k", "", "value", "sp ace", "m", "n"}
+var allStrs = []string{"plain", `q"uote`, `back\slash`, "new\nline", "\ud55c\uae00", "\U0001F600", `{"type":"x"}`, `Date("`, "",
+	"tab\there", "\u2028sep", `\u0041`, "(open", "[1,{2}]:", // safe: 14
+	"par)en", "Int(7", "Text(", "a\x00b", "ver\vtab", "Long(1)"}
 
-var hAttrs = []map[string]string{nil, {"b": "1"}, {"color": "red", "b": "2"}, {`q"`: `v"`}, {"p)": "Int("}, {"한": "😀"},
-	{"nl": "a\nb", "bs": `c\d`}, {"z": "\x01"}, {"type": "x", "value": ""}}
+var allKeys = []string{"k", "\ud55c", "\U0001F600k", "", "value", "sp ace", "m", "n", "a(b", "x:y,z", // safe: 10
+	"type", `q"k`, `b\k`, "n\nk", "p)k", "Long("}
 
-var hTypes = []string{"p", "b", "li", "한", `q"t`, "x)y", "type", "Int("}
+var allAttrs = []map[string]string{nil, {"b": "1"}, {"color": "red", "b": "2"}, {`q"`: `v"`}, {"\ud55c": "\U0001F600"},
+	{"nl": "a\nb", "bs": `c\d`}, {"type": "x", "value": ""}, // safe: 7
+	{"p)": "Int("}, {"z": "\x01"}}
 
-var hPrims = [][]interface{}{
-	{nil},
-	{true, false},
-	{int32(0), int32(math.MaxInt32), int32(math.MinInt32), int32(-7)},
-	{int64(5), int64(1<<53 + 1), int64(math.MaxInt64), int64(math.MinInt64), int64(1 << 53), int64(math.MaxInt32 + 1)},
-	{0.5, math.Copysign(0, -1), 1e300, 5e-324, 3.0, math.NaN(), math.Inf(-1), 1e21},
-	{[]byte{}, []byte{0, 255, 1, 34, 41}, []byte("Int(")},
-	{gotime.UnixMilli(1700000000123).UTC(), gotime.Unix(951782400, 123456789), gotime.Unix(316000000000, 0).UTC(),
-		gotime.UnixMilli(-1).In(gotime.FixedZone("", 9*3600)), gotime.UnixMilli(0)},
-	nil, // strings
-	nil, // strings
+var allTypes = []string{"p", "b", "li", "\ud55c", `q"t`, "type", // safe: 6
+	"x)y", "Int("}
+
+var allLongs = []interface{}{int64(5), int64(math.MinInt64), int64(1 << 53), int64(math.MaxInt32 + 1), // safe: 4
+	int64(1<<53 + 1), int64(math.MaxInt64)}
+
+var allDoubles = []interface{}{0.5, math.Copysign(0, -1), 1e300, 5e-324, 3.0, 1e21, // safe: 6
+	math.NaN(), math.Inf(-1)}
+
+var allDates = []interface{}{gotime.UnixMilli(1700000000123).UTC(), gotime.Unix(951782400, 123456789),
+	gotime.UnixMilli(-1).In(gotime.FixedZone("", 9*3600)), gotime.UnixMilli(0), // safe: 4
+	gotime.Unix(316000000000, 0).UTC()}
+
+var allBig = []interface{}{1, -3, math.MaxInt32, int64(1 << 40), 2.5, // safe: 5
+	int64(1<<53 + 1), int64(math.MaxInt64), int64(math.MinInt64)}
+
+var allLongInit = []int64{0, 1 << 40, 1 << 53, -(1 << 40), // safe: 4
+	math.MaxInt64 - 2, -(1<<53 + 1)}
+
+// the current tables (set by useTables; tests of this package run sequentially)
+var (
+	hStrs     []string
+	hKeys     []string
+	hAttrs    []map[string]string
+	hTypes    []string
+	hPrims    [][]interface{}
+	hBig      []interface{}
+	hLongInit []int64
+	hTypeKey  string
+)
+
+func useTables(sharp bool) {
+	cut := func(n, safe int) int {
+		if sharp {
+			return n
+		}
+		return safe
+	}
+	hStrs = allStrs[:cut(len(allStrs), 14)]
+	hKeys = allKeys[:cut(len(allKeys), 10)]
+	hAttrs = allAttrs[:cut(len(allAttrs), 7)]
+	hTypes = allTypes[:cut(len(allTypes), 6)]
+	hBig = allBig[:cut(len(allBig), 5)]
+	hLongInit = allLongInit[:cut(len(allLongInit), 4)]
+	hTypeKey = "kind"
+	if sharp {
+		hTypeKey = "type" // {"type": "<string>"} nested: N4
+	}
+	hPrims = [][]interface{}{
+		{nil},
+		{true, false},
+		{int32(0), int32(math.MaxInt32), int32(math.MinInt32), int32(-7)},
+		allLongs[:cut(len(allLongs), 4)],
+		allDoubles[:cut(len(allDoubles), 6)],
+		{[]byte{}, []byte{0, 255, 1, 34, 41}, []byte("Int(")},
+		allDates[:cut(len(allDates), 4)],
+		nil, // strings
+		nil, // strings
+	}
 }
 
-var hBig = []interface{}{1, -3, math.MaxInt32, int64(1 << 40), int64(1<<53 + 1), int64(math.MaxInt64), int64(math.MinInt64), 2.5}
+func init() { useTables(true) }
 
 var hActors = []string{"u1", "u2", "u3", "alice", "bob", "한", `a"b`, "x)"}
 
@@ -206,7 +263,7 @@ func editTree(tr *json.Tree, s HStep) string {
 		attrs := hAttrs[1+s.C%(len(hAttrs)-1)]
 		if s.C%3 == 0 {
 			var keys []string
-			for _, k := range []string{"b", "color", `q"`, "p)", "한", "nl", "z", "type"} {
+			for _, k := range []string{"b", "color", `q"`, "p)", "\ud55c", "nl", "z", "type"} {
 				if _, ok := attrs[k]; ok {
 					keys = append(keys, k)
 				}
@@ -270,7 +327,7 @@ func applyExt(d *document.Document, s HStep) (desc string, err error) {
 			case "xcnt":
 				switch s.A % 3 {
 				case 0:
-					v := []int64{0, 1 << 40, math.MaxInt64 - 2, -(1<<53 + 1)}[s.B%4]
+					v := hLongInit[s.B%len(hLongInit)]
 					r.SetNewCounter("lc", v)
 					desc = fmt.Sprintf("root.lc = LongCounter(%d)", v)
 				case 1:
@@ -342,7 +399,7 @@ func applyExt(d *document.Document, s HStep) (desc string, err error) {
 					k := hKeys[s.B%len(hKeys)]
 					switch s.C % 5 {
 					case 0:
-						o.SetNewArray(k).AddNewObject().SetString("type", "x")
+						o.SetNewArray(k).AddNewObject().SetString(hTypeKey, "x")
 					case 1:
 						o.SetNewText(k).Edit(0, 0, hStrs[s.B%len(hStrs)], hAttrs[s.C%len(hAttrs)])
 					case 2:
@@ -506,9 +563,13 @@ func isExtOp(op string) bool { return len(op) > 1 && op[0] == 'x' }
 // runHistory executes a history and evaluates checkDoc on every replica state
 // it produces (the edited replica after an edit, both after an exchange or GC).
 func runHistory(c HCase) (fail *kit.Failure, hist []string, ev map[string]int, finals []*shape) {
+	useTables(c.Sharp)
 	p, err := newPair()
 	if err != nil {
 		return kit.Failf("HARNESS", "HARNESS-ERROR start: %v", err), nil, map[string]int{}, nil
+	}
+	if c.Sharp {
+		p.ev["sharp_tables"] = 1
 	}
 	ev = p.ev
 	logf := func(format string, a ...any) { p.hist = append(p.hist, fmt.Sprintf(format, a...)) }
@@ -660,7 +721,7 @@ func genHistory(maxSteps int) *rapid.Generator[HCase] {
 		curCtx = genCtx{sharp: rapid.IntRange(0, 2).Draw(t, "sharp") == 0}
 		n := rapid.IntRange(3, maxSteps).Draw(t, "len")
 		steps := rapid.SliceOfN(genHStep(pool), n, n).Draw(t, "steps")
-		return HCase{Steps: steps}
+		return HCase{Sharp: curCtx.sharp, Steps: steps}
 	})
 }
 
@@ -678,6 +739,7 @@ func TestC18Histories(t *testing.T) {
 	var bestFail *kit.Failure
 	var bestHist []string
 	harnessErr := ""
+	states := map[string]int{}
 	defer func() {
 		if best != nil {
 			path := kit.WriteReplay(prop, "history", fmt.Sprintf("history-%016x", hashJSON(*best)), *best, bestFail, bestHist)
@@ -690,12 +752,19 @@ func TestC18Histories(t *testing.T) {
 		if harnessErr != "" {
 			fmt.Printf("HARNESS-ERROR property=%s %s\n", prop, harnessErr)
 		}
+		// document states judged (a history yields one per edit and two per exchange)
+		for k, v := range states {
+			col.SetExtra("states_"+k, v)
+		}
 		col.Flush(true)
 	}()
 	gen := genHistory(kit.Pick(30, 60))
 	rapid.Check(t, func(rt *rapid.T) {
 		c := gen.Draw(rt, "history")
 		fail, hist, ev, finals := runHistory(c)
+		for _, k := range []string{"structural_checked", "stored_change_checked", "textual_checked", "textual_checked_hostile"} {
+			states[k] += ev[k]
+		}
 		nonTrivial := false
 		if ev["edits"] >= 10 {
 			ev["edits>=10"] = 1
